@@ -1200,6 +1200,8 @@ func c02ResolverChain(e *Env, rule string) {
 	gv := gm.Service("gontainerValueResolver")
 	okG := ctorIs(e, gv, resolverRel, "NewFixedValueResolver") && len(gv.Args) == 2 && wiredConst(e, gv, 0) == special
 	r.Check(okG, rule, selfRel+"#service:gontainerValueResolver", "the container keyword resolver recognises "+special+" and injects the generated constructor's own container variable")
+	// and that keyword is the documented one (README / docs/SERVICES.md: "$gontainer")
+	r.Check(special == "$gontainer", rule, "internal/pkg/consts.SpecialGontainerID", fmt.Sprintf("the keyword that injects the container is the documented \"$gontainer\" (found %q): under another spelling the documented argument is compiled as plain text", special))
 }
 
 // wiredConst: the constant string a service receives as its i-th argument (!value consts.X or a plain string).
